@@ -1092,6 +1092,17 @@ class _TagBinary:
     def write(self, b):
         if not isinstance(b, (bytes, bytearray, memoryview)):
             raise TypeError('a bytes-like object is required, not %r' % type(b).__name__)
+        env = CURRENT_ENV
+        if env is not None and env.knobs.get('worker_write_error') and env.sched.active and \
+                env.sched.current is not env.sched.main:
+            # the parent's stdout is a non-blocking pipe / a full disk: one write made by a
+            # worker thread (the immediate collector relays from there) fails
+            env.worker_writes = getattr(env, 'worker_writes', 0) + 1
+            if env.worker_writes == env.knobs['worker_write_error']:
+                env.sched.probe('worker_write_error_injected')
+                env.fired.append('worker_write_error')
+                raise BlockingIOError(errno.EAGAIN, 'write could not complete without '
+                                      'blocking (injected)')
         self.log.append((self.tag, bytes(b).decode('utf-8', 'replace')))
         return len(b)
 
